@@ -58,7 +58,7 @@ structural inductions below prove: they go through `mapE`/`mapB` (the generic `N
 once (`Proofs/C04Traverse.lean`) and need, per converter, only that a `post` hook (a `visit_X` that calls
 `generic_visit` first) turns a node with routed children into a routed node.  A `pre` hook (no
 `generic_visit`) gets nothing about its children from the induction — that is exactly where
-`visit_IfExp` fails. -/
+`visit_IfExp` failed before fix 33af8cf (`C04_ifexp_prefix_regression`). -/
 
 private theorem orf {a b : Bool} : (a || b) = false ↔ a = false ∧ b = false := by
   cases a <;> cases b <;> simp
@@ -115,83 +115,50 @@ example : Logical.visitE false (.boolop 1 true [.name 2 "a" .load, .unary 3 "Not
   rfl
 
 /-! ### conditional expressions -/
-private theorem ifexp_pre_none_not_ifexp (r : Nat → String) (e : Expr) (h : (IfExp.hooks r).pre e = none) :
-    isIfExp (kidsE (IfExp.hooks r) e) = false := by
-  cases e <;> simp [IfExp.hooks, IfExp.pre, kidsE, isIfExp] at *
-
 private theorem ifexpHooksFree (r : Nat → String) :
-    HooksFree (IfExp.hooks r) isIfExp nestedIfExpHere where
-  pre := by
-    intro e res h hb
-    cases e <;> simp [IfExp.hooks, IfExp.pre] at h
-    rename_i i t b e1
-    subst h
-    have hb' : nestedIfExpHere (.ifexp i t b e1) = false := by
-      simp only [anyE, orf] at hb; exact hb.1
-    simp only [nestedIfExpHere, orf] at hb'
-    exact rewrite_free kindPred_isIfExp r i t b e1 hb'.1.1 hb'.1.2 hb'.2
-  post := by
-    intro e hpre _ hk
-    have : isIfExp (kidsE (IfExp.hooks r) e) = false := ifexp_pre_none_not_ifexp r e hpre
-    show anyE isIfExp (kidsE (IfExp.hooks r) e) = false
-    simp only [anyE, this, hk]; rfl
-
-/- Full statement (FALSE for the pinned `visit_IfExp`, which never calls `generic_visit`):
-
-     theorem C04_ifexp_routed (r) (b : List Stmt) : anyB isIfExp (IfExp.visitB r b) = false
-
-   Counterexample below (`C04_ifexp_routed_counterexample`): `1 if a else (2 if b else 3)`.
-   Known finding C04-ifexp-nested, class `ifexp_nested_in_ifexp_branch` = ¬ `noNestedIfExpB`.
-   Proposed fix: `node = self.generic_visit(node)` as first line of `visit_IfExp`
-   (then `C04_ifexp_routed_fixed` below is the unconditional statement). -/
-
-/-- **C04 for conditional expressions, partial**: if no conditional expression contains another one
-(anywhere inside: test, branches, or deeper), the output has no native conditional expression. -/
-theorem C04_ifexp_routed_partial (r : Nat → String) (b : List Stmt) (h : noNestedIfExpB b = true) :
-    anyB isIfExp (IfExp.visitB r b) = false :=
-  mapB_free _ _ _ _ (ifexpHooksFree r) (SHooksFree.default _ _ _) b (by simpa [noNestedIfExpB] using h)
-
-theorem C04_ifexp_routed_partial_expr (r : Nat → String) (e : Expr) (h : noNestedIfExpE e = true) :
-    anyE isIfExp (IfExp.visitE r e) = false :=
-  mapE_free _ _ _ (ifexpHooksFree r) e (by simpa [noNestedIfExpE] using h)
-
-/-- `1 if a else (2 if b else 3)` -/
-def nestedIfExpWitness : Expr :=
-  .ifexp 1 (.name 2 "a" .load) (.const 3 "int" "1") (.ifexp 4 (.name 5 "b" .load) (.const 6 "int" "2") (.const 7 "int" "3"))
-
-/-- The full statement fails on the pinned code: the inner conditional stays native. -/
-theorem C04_ifexp_routed_counterexample :
-    ¬ (∀ (r : Nat → String) (e : Expr), anyE isIfExp (IfExp.visitE r e) = false) := by
-  intro h
-  have := h (fun _ => "''") nestedIfExpWitness
-  revert this
-  decide
-
-example : noNestedIfExpE nestedIfExpWitness = false := by decide
--- the hypothesis is satisfiable by a non-trivial instance: two conditionals side by side
-example : noNestedIfExpE (.binop 1 "Add" (.ifexp 2 (.name 3 "a" .load) (.const 4 "int" "1") (.const 5 "int" "2"))
-    (.ifexp 6 (.name 7 "b" .load) (.const 8 "int" "1") (.const 9 "int" "2"))) = true := by decide
-
-private theorem ifexpFixedHooksFree (r : Nat → String) :
-    HooksFree (IfExp.hooksFixed r) isIfExp (fun _ => false) where
-  pre := by intro e res h; simp [IfExp.hooksFixed] at h
+    HooksFree (IfExp.hooks r) isIfExp (fun _ => false) where
+  pre := by intro e res h; simp [IfExp.hooks] at h
   post := by
     intro e _ _ hk
-    show anyE _ (IfExp.postFixed r (kidsE (IfExp.hooksFixed r) e)) = false
-    generalize kidsE (IfExp.hooksFixed r) e = e' at hk
+    show anyE _ (IfExp.post r (kidsE (IfExp.hooks r) e)) = false
+    generalize kidsE (IfExp.hooks r) e = e' at hk
     cases e'
     case ifexp i t b e1 =>
-      simp only [IfExp.postFixed]
+      simp only [IfExp.post]
       simp only [anyKids, orf] at hk
       have h1 : anyE isIfExp t = false := by simp only [anyE, hk.1.1.1, hk.1.1.2]; rfl
       have h2 : anyE isIfExp b = false := by simp only [anyE, hk.1.2.1, hk.1.2.2]; rfl
       have h3 : anyE isIfExp e1 = false := by simp only [anyE, hk.2.1, hk.2.2]; rfl
       exact rewrite_free kindPred_isIfExp r i t b e1 h1 h2 h3
-    all_goals (simp [IfExp.postFixed, anyE, isIfExp, hk])
+    all_goals (simp [IfExp.post, anyE, isIfExp, hk])
 
-/-- With the proposed one-line fix (`generic_visit` first) the statement holds without hypothesis. -/
-theorem C04_ifexp_routed_fixed (r : Nat → String) (e : Expr) : anyE isIfExp (IfExp.visitEFixed r e) = false :=
-  mapE_free _ _ _ (ifexpFixedHooksFree r) e (anyE_false e)
+/-- **C04 for conditional expressions** (unconditional since fix 33af8cf: `visit_IfExp` calls `generic_visit`
+first): for EVERY block, in every syntactic context — including the test and the branches of another
+conditional expression — the output of the conditional-expression converter contains no native
+conditional expression. -/
+theorem C04_ifexp_routed (r : Nat → String) (b : List Stmt) : anyB isIfExp (IfExp.visitB r b) = false :=
+  mapB_free _ _ _ _ (ifexpHooksFree r) (SHooksFree.default _ _ _) b (anyB_false b)
+
+theorem C04_ifexp_routed_expr (r : Nat → String) (e : Expr) : anyE isIfExp (IfExp.visitE r e) = false :=
+  mapE_free _ _ _ (ifexpHooksFree r) e (anyE_false e)
+
+/-- `1 if a else (2 if b else 3)` — the witness of the former finding C04-ifexp-nested -/
+def nestedIfExpWitness : Expr :=
+  .ifexp 1 (.name 2 "a" .load) (.const 3 "int" "1") (.ifexp 4 (.name 5 "b" .load) (.const 6 "int" "2") (.const 7 "int" "3"))
+
+/-- the former witness is now routed: both conditionals become `ag__.if_exp` -/
+theorem C04_ifexp_former_witness_routed : anyE isIfExp (IfExp.visitE (fun _ => "''") nestedIfExpWitness) = false := by
+  decide
+
+example : IfExp.visitE (fun _ => "'r'") nestedIfExpWitness =
+    .call 0 (ag "if_exp") [.name 2 "a" .load, thunk (.const 3 "int" "1"),
+      thunk (.call 0 (ag "if_exp") [.name 5 "b" .load, thunk (.const 6 "int" "2"), thunk (.const 7 "int" "3"),
+        .const 0 "str" "'r'"] []), .const 0 "str" "'r'"] [] := by rfl
+
+/-- Regression statement: the pass WITHOUT `generic_visit` (a revert of 33af8cf, `IfExp.visitEOld`) leaves
+the inner conditional of the witness native — what the check reports as a violation if it recurs. -/
+theorem C04_ifexp_prefix_regression : anyE isIfExp (IfExp.visitEOld (fun _ => "''") nestedIfExpWitness) = true := by
+  decide
 
 /-! ### the later passes keep what the earlier ones established -/
 private theorem logicalKeepsIfExpFree (eqOn : Bool) : HooksFree (Logical.hooks eqOn) isIfExp isIfExp where
@@ -239,7 +206,7 @@ private theorem undefAssigns_free {p : Expr → Bool} (K : KindPred p) :
       simp [anyS, anyEs, anyE, anyKids, anyKidsL, K.name, K.call, K.const, h0.1, h0.2]
 
 private theorem variablesSHooksFree {p : Expr → Bool} (K : KindPred p) (o : Nat → Bool) :
-    SHooksFree (Variables.hooks o) Variables.shooks p p where
+    SHooksFree (Variables.hooks o) (Variables.shooks o) p p where
   pre := by
     intro s r h hb
     cases s <;> simp [Variables.shooks, Variables.preS] at h
@@ -249,12 +216,14 @@ private theorem variablesSHooksFree {p : Expr → Bool} (K : KindPred p) (o : Na
     subst h
     have h1 : anyE p (Variables.ld (.name j nme .load)) = false := by
       simp only [Variables.ld]; rw [anyE_call1 K]; simp [anyE, anyKids, K.name]
-    simp [anyB, anyS, anyEs, anyKidsL, anyKids, K.name, h1]
-    simpa [anyS] using hb
+    simp only [anyS, orf] at hb
+    have h2 : anyE p (mapE (Variables.hooks o) v) = false := mapE_free _ _ _ (variablesHooksFree K o) v hb.2
+    have h3 : anyE p (.name j nme c) = false := by simp [anyE, anyKids, K.name]
+    simp [anyB, anyS, anyEs, anyKidsL, anyKids, K.name, h1, h2, h3]
   post := by
     intro s _ _ hk
-    show anyB p (Variables.postS (kidsS (Variables.hooks o) Variables.shooks s)) = false
-    generalize kidsS (Variables.hooks o) Variables.shooks s = s' at hk
+    show anyB p (Variables.postS (kidsS (Variables.hooks o) (Variables.shooks o) s)) = false
+    generalize kidsS (Variables.hooks o) (Variables.shooks o) s = s' at hk
     cases s' <;> simp only [Variables.postS] <;> try (simp [anyB, hk])
     rename_i i ts
     simp only [anyS, anyEs] at hk
@@ -272,14 +241,13 @@ theorem variables_keeps_free {p : Expr → Bool} (K : KindPred p) (o : Nat → B
   mapB_free _ _ _ _ (variablesHooksFree K o) (variablesSHooksFree K o) b h
 
 /-- **Composition for the expression passes** (`conditional_expressions`, `logical_expressions`,
-`variables`, in pipeline order): under `noNestedIfExp`, the result has no native `and`/`or`/`not`
-(`==`/`!=`) and no native conditional expression, in any syntactic context. -/
-theorem C04_expr_passes_compose_partial (eqOn : Bool) (r : Nat → String) (o : Nat → Bool) (g : List Stmt)
-    (h : noNestedIfExpB g = true) :
+`variables`, in pipeline order): the result has no native `and`/`or`/`not` (`==`/`!=`) and no native
+conditional expression, in any syntactic context.  (Unconditional since fix 33af8cf.) -/
+theorem C04_expr_passes_compose (eqOn : Bool) (r : Nat → String) (o : Nat → Bool) (g : List Stmt) :
     anyB (nativeLogical eqOn) (Variables.visitB o (Logical.visitB eqOn (IfExp.visitB r g))) = false ∧
     anyB isIfExp (Variables.visitB o (Logical.visitB eqOn (IfExp.visitB r g))) = false :=
   ⟨variables_keeps_free (kindPred_nativeLogical eqOn) o _ (C04_logical_routed eqOn _),
-   variables_keeps_free kindPred_isIfExp o _ (logical_keeps_ifexp_free eqOn _ (C04_ifexp_routed_partial r g h))⟩
+   variables_keeps_free kindPred_isIfExp o _ (logical_keeps_ifexp_free eqOn _ (C04_ifexp_routed r g))⟩
 
 
 /-! ### in the checker's own vocabulary -/
@@ -320,14 +288,14 @@ private theorem logicalAllKinds (eqOn : Bool) : HooksFree (Logical.hooks eqOn) (
         cases e' <;> simp [rewrittenByLogical, nativeLogical, isBoolOp, isNot, isEqCompare] at *
       simp [anyE, nativeExprKind, this, hpe, hk]
 
-/-- **The three expression passes, judged by the checker that runs on the real output**: under
-`noNestedIfExp`, whatever `offE` still reports on `variables(logical(conditional(e)))` is a CALL — and
+/-- **The three expression passes, judged by the checker that runs on the real output**: whatever `offE`
+still reports on `variables(logical(conditional(e)))` is a CALL — and
 calls are call_trees' business (`C04_calls_routed_expr`, which runs earlier in the pipeline; the later
 passes only insert `ag__.*` calls). -/
-theorem C04_expr_pipeline_only_calls_partial (cfg : Cfg) (r : Nat → String) (o : Nat → Bool) (e : Expr)
-    (h : noNestedIfExpE e = true) (sc : List String) (w : Bool) (pos : Pos) :
+theorem C04_expr_pipeline_only_calls (cfg : Cfg) (r : Nat → String) (o : Nat → Bool) (e : Expr)
+    (sc : List String) (w : Bool) (pos : Pos) :
     ∀ off ∈ offE cfg sc w pos (Variables.visitE o (Logical.visitE cfg.eqOn (IfExp.visitE r e))), off.kind = "Call" := by
-  have h1 : anyE isIfExp (IfExp.visitE r e) = false := C04_ifexp_routed_partial_expr r e h
+  have h1 : anyE isIfExp (IfExp.visitE r e) = false := C04_ifexp_routed_expr r e
   have h2 : anyE (nativeExprKind cfg.eqOn) (Logical.visitE cfg.eqOn (IfExp.visitE r e)) = false :=
     mapE_free _ _ _ (logicalAllKinds cfg.eqOn) _ h1
   have h3 : anyE (nativeExprKind cfg.eqOn) (Variables.visitE o (Logical.visitE cfg.eqOn (IfExp.visitE r e))) = false :=
